@@ -227,12 +227,13 @@ class Lemma(Contract):
       {'body': 'module:qualname', 'loop': ordinal, 'rename': {local: name}}   -- one arbitrary iteration
     """
     def __init__(self, name: str, prop: str, steps: list, inline: tuple = ('*',), note: str = '') -> None:
-        first = steps[0].get('call') or steps[0].get('body') or steps[0].get('stmts')
+        real = [st for st in steps if 'native' not in st]
+        first = real[0].get('call') or real[0].get('body') or real[0].get('stmts')
         super().__init__(first, prop, name=name, inline=inline, modular=False, note=note)
         self.steps = steps
 
     def targets(self) -> list[str]:
-        return [st.get('call') or st.get('body') or st.get('stmts') for st in self.steps]
+        return [st.get('call') or st.get('body') or st.get('stmts') for st in self.steps if 'native' not in st]
 
 
 class Harness:
@@ -522,6 +523,12 @@ def run_lemma(I: Interp, c: 'Lemma', spec: dict, label: str, path: Path) -> None
     path.cover(f'{label}.requires_satisfiable', 0)
     try:
         for k, st in enumerate(c.steps):
+            if st.get('unless') and vals.get(st['unless']) is not None:
+                continue        # e.g. the rest of a `with` body after the body raised
+            if 'native' in st:
+                # a step of the environment / caller (e.g. the body of a `with` block), given by the sidecar
+                st['native'](I, vals)
+                continue
             target = st.get('call') or st.get('body') or st.get('stmts')
             module, qualname = target.split(':')
             mod = extract.load(module)
@@ -534,13 +541,20 @@ def run_lemma(I: Interp, c: 'Lemma', spec: dict, label: str, path: Path) -> None
             fn = FuncVal(fnode, module, qualname, closure=clo)
             if 'stmts' in st:
                 # top-level statements [lo:hi] of the function body, on the shared named values
-                lo, hi = st['range']
+                if 'select' in st:
+                    # a consecutive run of (possibly nested) statements, located in the function's AST on every run
+                    block = st['select'](fnode)
+                    if not block:
+                        raise Unsupported(f'lemma {c.name}: fragment of {qualname} not found (code restructured)')
+                else:
+                    lo, hi = st['range']
+                    block = fnode.body[lo:hi]
                 env = Env(clo, module)
                 env.vars.update({k: v for k, v in vals.items()})
                 I.current_fn.append(fn)
                 I.depth += 1
                 try:
-                    I.exec_block(fnode.body[lo:hi], env)
+                    I.exec_block(block, env)
                 finally:
                     I.depth -= 1
                     I.current_fn.pop()
@@ -589,9 +603,20 @@ def run_lemma(I: Interp, c: 'Lemma', spec: dict, label: str, path: Path) -> None
                     vals[rename.get(n, n)] = v
     except PyRaise as pr:
         exc = pr.exc
-        if not any(I.is_subclass(exc.typ, t) for t in c.raises_):
+        allowed = [t for t in c.raises_ if I.is_subclass(exc.typ, t)]
+        if not allowed:
             path.oblige(f'{label}.no_unexpected_exception', z3.BoolVal(False), exc.lineno,
                         note=f'{exc.typ} raised at line {exc.lineno}')
+            return
+        path.cover(f'{label}.end_reachable', 0)
+        allv = dict(I.ghost)
+        allv.update(vals)
+        allv['raised'] = exc.typ
+        for t in allowed:
+            for cl in c.raises_[t]:
+                if any(p not in allv for p in cl.params):
+                    continue
+                path.oblige(f'{label}.on_raise.{t}.{cl.name}', to_z3(I.truth(cl.call(I, allv, I.entry_view))), cl.line)
         return
     path.cover(f'{label}.end_reachable', 0)
     allv = dict(I.ghost)
